@@ -317,6 +317,84 @@ class ImagesLoadGate(Contract):
         return "Images.deserialize of a version %r document with one record under %r/%r" % (inputs["version"], inputs["variant"], inputs["arch"])
 
 
+class ImagesLoadAny(ImagesLoadGate):
+    """the same contract for a document of ARBITRARY size (any number of variants, arches and records per cell; witness rule of
+    pyvc/anycoll.py over the three nested loops, callees recorded): the arbitrary record at (v, a) is read into a fresh Image whose parent
+    is the manifest and filed exactly once -- through _add_1_1(data, v, a, image) iff version <= 1.1, through add(v, a, image) otherwise --
+    so every loaded entry goes through add() (the identity and arch rules of C09/C10 apply to loaded documents of any size)."""
+    name = "productmd.images.Images.deserialize[document of arbitrary size]"
+    key = "gate:images.Images.deserialize:any"
+
+    def setup(self, E):
+        from pyvc.engine import Entry
+        from pyvc.anycoll import AnyDict, AnySet
+        m = E.instantiate(("images", "Images"))
+        ver = SV(sym.Val.VStr(z3.Const("hdr.version", sym.S)))
+        m.fields["header"].fields["version"] = ver
+        E.assume(F.valid_header(self.T, m.fields["header"]))
+
+        def D(items):
+            d = E.models.new_dict("doc")
+            for k, v in items:
+                d.entries.append(Entry(k, True, v))
+            return d
+        images = AnyDict("images", lambda e, k, t: AnyDict("arches", lambda e2, k2, t2: AnySet("records", lambda e3, t3: e3.models.new_dict("record"))))
+        data = D([("header", D([])), ("payload", D([("compose", D([])), ("images", images)]))])
+        calls = []
+
+        def mk(n):
+            def summ(E_, obj, args, kwargs):
+                calls.append((n, obj, list(args)))
+                return None
+            return summ
+        self._stubs = [(("images", "Images"), "add"), (("images", "Images"), "_add_1_1"), (("images", "Image"), "deserialize"),
+                       (("common", "Header"), "deserialize"), (("composeinfo", "Compose"), "deserialize")]
+        for k in self._stubs:
+            E.summaries[k] = mk(k[1] if k[0][1] in ("Images",) else "%s.%s" % (k[0][1], k[1]))
+        return {"m": m, "ver": ver, "images": images, "data": data, "calls": calls}
+
+    def post(self, E, st, out):
+        if out.kind == "raise":
+            return {"dispatch_does_not_fail_for_wellformed_version": False}
+        legacy = le(version_parts(E, st["ver"]), (1, 1))
+        wit = getattr(E.path, "witnesses", [])
+        if any(kind == "exit" for kind, c, x in wit):
+            return {"dispatch_does_not_fail_for_wellformed_version": True, "no_iteration_leaves_the_loops_early": False}
+        alls = [x for kind, c, x in wit if kind == "all"]
+        reads = [c for c in st["calls"] if c[0] == "Image.deserialize"]
+        files = [c for c in st["calls"] if c[0] in ("add", "_add_1_1")]
+        cl = {"dispatch_does_not_fail_for_wellformed_version": True,
+              "version_current_after_load": st["m"].fields["header"].fields["version"] == "%d.%d" % self.T.VERSION}
+        if len(alls) == 3 and all(x is not None for x in alls):
+            v, a, rec = alls
+            one = len(reads) == 1 and len(files) == 1 and reads[0][2][0] is rec
+            img = reads[0][1] if reads else None
+            fresh = isinstance(img, Obj) and img.cls == ("images", "Image") and img.fields.get("parent") is st["m"]
+            if one and files[0][0] == "_add_1_1":
+                how = legacy
+                args_ok = files[0][2][0] is st["data"] and files[0][2][3] is img and And(_veq(files[0][2][1], v), _veq(files[0][2][2], a))
+            elif one:
+                how = Not(legacy)
+                args_ok = files[0][2][2] is img and And(_veq(files[0][2][0], v), _veq(files[0][2][1], a))
+            else:
+                how, args_ok = False, False
+            cl["record_read_into_a_fresh_image_and_filed_once"] = one and fresh
+            cl["legacy_refiling_iff_version_at_most_1_1"] = how
+            cl["filed_under_the_documents_variant_and_arch"] = args_ok
+        else:
+            cl["record_read_into_a_fresh_image_and_filed_once"] = len(reads) == 0 and len(files) == 0
+        return cl
+
+    def concretise(self, model, st):
+        return None
+
+    def sample_inputs(self, rng):
+        return iter(())
+
+    def native_eval(self, inputs):
+        raise NotImplementedError
+
+
 class VariantsTopLevelGate(Contract):
     """composeinfo Variants.deserialize on the document {S: rec, S-O: rec} (S, O symbolic; S may or may not list O as its child) for EVERY
     header version: which UIDs are read as TOP-LEVEL variants.  Before 1.0 parentage is implied by the UID prefix (S-O is S's child: only
@@ -654,4 +732,4 @@ class ComposeLegacyRead(Contract):
 
 
 def contracts(src, T):
-    return [Gate(src, T, g) for g in GATES] + [HeaderRead(src, T, "common"), HeaderRead(src, T, "treeinfo"), ImagesLoadGate(src, T), VariantsTopLevelGate(src, T), LegacyChildren(src, T), ComposeLegacyRead(src, T)]
+    return [Gate(src, T, g) for g in GATES] + [HeaderRead(src, T, "common"), HeaderRead(src, T, "treeinfo"), ImagesLoadGate(src, T), ImagesLoadAny(src, T), VariantsTopLevelGate(src, T), LegacyChildren(src, T), ComposeLegacyRead(src, T)]
